@@ -255,6 +255,9 @@ func runC03(w *World) {
 
 	nc := 1 + w.knob("clients", 3)
 	size := []int{6, 12, 25, 50}[w.knob("size", 4)]
+	if w.deep() && w.knob("deep", 3) == 0 {
+		size = 120
+	}
 	// a quarter of the runs also rewrite the log while the clients write; those runs leave out
 	// the commands of the open C09 findings (RENAME/RENAMENX/JDEL during a rewrite)
 	withShrink := w.knob("shrink", 4) == 0
@@ -300,6 +303,9 @@ func runC03(w *World) {
 	}
 	// crash as a scheduler action, biased to instants with in-flight state
 	crashes := 1 + w.knob("crashes", 2)
+	if w.deep() {
+		crashes += w.knob("morecrashes", 3)
+	}
 	crashPending := false
 	w.faults = append(w.faults, func() []action {
 		if crashes == 0 || crashPending || n.inst.dead {
